@@ -118,7 +118,13 @@ impl Gen {
         let roll = self.profile.contains("roll");
         // profile `maint`: about a third of the ops are maintenance runs and removals
         if self.profile.contains("maint") && self.rng.chance(35, 100) {
-            return match self.rng.below(10) {
+            return match self.rng.below(12) {
+                10 | 11 => {
+                    // age one key set (or all) so that it is, or is not, within the re-issue margin
+                    let set = *self.rng.pick(&["current", "current", "staging", "old", "all"]);
+                    let h = *self.rng.pick(&[1i64, 7, 9, 30]);
+                    format!("age {} {set} {h}", ca.name)
+                }
                 0 => "republish force".into(),
                 1 => "republish ifneeded".into(),
                 2 => "task republish".into(),
